@@ -70,6 +70,15 @@ func TdxValidate(ctx context.Context, attestation []byte, opts *TdxValidateOptio
 			return fmt.Errorf("failed to unmarshal endorsement: %v", err)
 		}
 	}
+	// The policy is derived from the endorsement's contents, so the endorsement has to be
+	// authenticated against the caller's roots of trust first.
+	if err := verify.EndorsementProto(endorsement, &verify.Options{
+		RootsOfTrust: opts.RootsOfTrust,
+		Now:          opts.Now,
+		Getter:       opts.Getter,
+	}); err != nil {
+		return fmt.Errorf("failed to verify endorsement: %v", err)
+	}
 	policy, err := TdxPolicy(ctx, endorsement, &TdxPolicyOptions{
 		Base:      opts.BasePolicy,
 		Overwrite: opts.Overwrite,
